@@ -435,7 +435,7 @@ SHIM = ['rt/shim.c']
 prop('C04',
      'co: ucontext "threads" - 1-5 senders x 1-40 messages and one receiver that holds back 0..depth-1 messages, '
      'depth in {1,2,3,4,8,32}, message size 1-12, under uniform random schedules (switch probability 0.02/0.1/0.5 at '
-     'every atomic or plain access of messageq.c) and PCT schedules (d=1..3), spin loops backing off; isr: 18 fixed '
+     'every atomic or plain access of messageq.c) and PCT schedules (d=1..3), spin loops backing off; isr: 20 fixed '
      'scenarios (empty, part-full, full, claimed-but-unsent, index wrap, depth 1/2/3/4/32; main context as sender or '
      'receiver) with an interrupt-context sender (claim, fill, send) - or, in five of them, the receiver itself (receive, release) preempting a sender - injected before every schedule point, and a '
      'second one inside the first at every one of its points. Non-trivial = schedule/placement in which two claims '
@@ -455,13 +455,13 @@ prop('C04',
                   'be received first',
                   'a buffer counts as free from the invocation of release for the double-hand-out oracle and as in use '
                   'until release returned for the spurious-failure oracle (benefit of the doubt both ways)'],
-     exhaustive_note='isr stage: every placement of one ISR and of a nested pair in the 18 scenarios',
+     exhaustive_note='isr stage: every placement of one ISR and of a nested pair in the 20 scenarios',
      engine='E2', technique='runtime monitoring with schedule control: compiler-instrumented schedule points '
      '(private __tsan_* runtime), interrupt-injection sweeps and random/PCT coroutine schedules; ownership-table, '
      'unique-id history and conservation oracles at the client boundary; guard zones',
      level_text='Exploration with fault enumeration of interrupt placements. The real messageq.c runs under a private '
      'TSan runtime that turns every atomic and plain access into a schedule point; an interrupt-context sender is '
-     'injected at every point of 18 scenarios (and a second inside the first), and tens of thousands of random and '
+     'injected at every point of 20 scenarios (and a second inside the first), and tens of thousands of random and '
      'priority-based coroutine schedules are run; ownership, payload, exactly-once, order, spurious-failure and '
      'free-count oracles watch the client boundary.',
      level_note='Interleavings are swept for <= 2 injected ISRs in fixed scenarios and sampled otherwise; not all '
